@@ -46,6 +46,13 @@ impl Prop for C19 {
       let fam = name.split('_').take(3).collect::<Vec<_>>().join("_");
       out.push(Case { id: format!("corpus;name={}", name), cell: format!("stratum=corpus;family={}", fam), input: json!({"src": src, "mutates": J::Null}) });
     }
+    // every registered native function x argument shapes (assignment-free by construction)
+    // (the *-assign functions are the op-assignment operators under their function names: calling one is an assignment)
+    for (k, (id, src)) in stdlib_sweep().into_iter().enumerate() {
+      if tier == Tier::Quick && (k as u64 + seed) % 3 != 0 { continue; }
+      let f = id.split(';').next().unwrap_or("").to_string();
+      out.push(Case { id: format!("stdlib;{}", id), cell: format!("stratum=stdlib;{}", f), input: json!({"src": src, "mutates": f.contains("assign")}) });
+    }
     let n = if tier == Tier::Quick { 400 } else { 8000 };
     for i in 0..n {
       let mut rng = Rng::keyed(seed, &format!("c19comp{}", i));
